@@ -139,6 +139,14 @@ def run(tier, rep, ev):
             for tg in ([inside, inside[-1:], inside + [f"f{other}/m1-ü.bin"]] if tier != "quick" else [inside, inside[-1:]]):
                 for mode, sink in (("thread", "factory"), ("thread", "path"), ("process", "path"), ("seq", "factory")):
                     add(sizes=sizes, mode=mode, sink=sink, damaged=[f], targets=tg, seed=f, schedule=[])
+        # damage that only the member CRC can notice (incompressible content: the flipped byte sits in a stored chunk), every mode and coder
+        for f in range(1, len(sizes) + 1):
+            for mode, sink in (("process", "path"), ("thread", "path"), ("thread", "factory"), ("seq", "factory")):
+                add(sizes=sizes, mode=mode, sink=sink, damaged=[f], seed=f, schedule=[], incompressible=True, coder=["lzma2", "deflate", "bzip2", "copy"][(f + len(cases)) % 4])
+        # members of different folders under one directory without an entry of its own: the workers meet while creating it
+        for k in range(2 if tier == "quick" else 12):
+            add(sizes=sizes, mode="thread", sink="path", schedule=[], seed=k, shared_parent=True, mkdir_rendezvous=True, coder=["lzma2", "copy"][k % 2])
+        add(sizes=sizes, mode="process", sink="path", schedule=[], seed=1, shared_parent=True)
         # selective extraction in parallel (folders with no selected member are skipped)
         add(sizes=sizes, mode="thread", schedule=[len(sizes)] * len(sizes[-1]), sink="factory", targets=[f"f{len(sizes)}/m{i}-ü.bin" for i in range(1, len(sizes[-1]) + 1)])
     # two independent objects on one path, interleaved
